@@ -177,12 +177,13 @@ class ASPath(Attribute):
     def __eq__(self, other: object) -> bool:
         if not isinstance(other, ASPath):
             return False
-        return (
-            self.ID == other.ID
-            and self.FLAG == other.FLAG
-            and self._asn4 == other._asn4
-            and self._packed == other._packed
-        )
+        if self.ID != other.ID or self.FLAG != other.FLAG:
+            return False
+        if self._asn4 == other._asn4:
+            return self._packed == other._packed
+        # the same path held with 2-byte and with 4-byte packing (as decoded from an old and a new speaker)
+        mine, theirs = self.aspath, other.aspath
+        return len(mine) == len(theirs) and all(a.ID == b.ID and list(a) == list(b) for a, b in zip(mine, theirs))
 
     def __ne__(self, other: object) -> bool:
         return not self.__eq__(other)
